@@ -288,6 +288,20 @@ func c12RuleOracle(c C12Case) (inconclusive, discarded bool, err error) {
 }
 
 func c12BlockOracle(c C12Case) (inconclusive, discarded bool, err error) {
+	// two limits on one resource: the last one in the text wins (order-dependent, contradictory)
+	res := map[string]bool{}
+	for _, r := range c.L {
+		if r.Kind == "rlimit" {
+			key := r.Str("Key")
+			if key == "ofile" {
+				key = "nofile"
+			}
+			if res[key] {
+				return false, true, nil
+			}
+			res[key] = true
+		}
+	}
 	rules := rsToRules(c.L)
 	for _, r := range rules {
 		if r.Validate() != nil {
@@ -426,10 +440,14 @@ func TestC12_Blocks(t *testing.T) {
 				// two limits on one resource: the last one in the text wins, the meaning
 				// depends on the order of the rules (contradictory policy, like two exec
 				// transitions for one path)
-				if execOf["rlimit:"+r.Str("Key")] {
+				key := r.Str("Key")
+				if key == "ofile" {
+					key = "nofile" // two names of one resource
+				}
+				if execOf["rlimit:"+key] {
 					continue
 				}
-				execOf["rlimit:"+r.Str("Key")] = true
+				execOf["rlimit:"+key] = true
 			}
 			if r.Kind == "file" {
 				acc := r.List("Access")
